@@ -423,12 +423,14 @@ class DataFrameModel(Generic[TDataFrame, TSchema], BaseModel):
             # iterate a snapshot: another thread's first ``to_schema`` call may
             # add attributes to the class while we are looking at it
             for attr_name, attr_value in list(vars(base).items()):
+                # a name hides the same name in the bases, whatever it is
+                # bound to (as attribute lookup does)
+                if attr_name in method_names:  # overridden by subclass
+                    continue
+                method_names.add(attr_name)
                 check_info = getattr(attr_value, key, None)
                 if not isinstance(check_info, CheckInfo):
                     continue
-                if attr_name in method_names:  # check overridden by subclass
-                    continue
-                method_names.add(attr_name)
                 check_infos.append(check_info)
         return check_infos
 
@@ -449,12 +451,14 @@ class DataFrameModel(Generic[TDataFrame, TSchema], BaseModel):
             # iterate a snapshot: another thread's first ``to_schema`` call may
             # add attributes to the class while we are looking at it
             for attr_name, attr_value in list(vars(base).items()):
+                # a name hides the same name in the bases, whatever it is
+                # bound to (as attribute lookup does)
+                if attr_name in method_names:  # overridden by subclass
+                    continue
+                method_names.add(attr_name)
                 parser_info = getattr(attr_value, key, None)
                 if not isinstance(parser_info, ParserInfo):
                     continue
-                if attr_name in method_names:  # parser overridden by subclass
-                    continue
-                method_names.add(attr_name)
                 parser_infos.append(parser_info)
         return parser_infos
 
